@@ -19,6 +19,10 @@
 //	                            top-level statement of the function (not guarded by anything but "not joined"), precedes
 //	                            RemoveParticipant, skips an entity only when it is missing or persistent, and calls
 //	                            RemoveEntity for every other one (coq/ConcLeave.v: the full departure)
+//	broadcast_serves_under_lock, broadcast_to_serves_under_lock
+//	                            Session.Broadcast / BroadcastTo take the participant lock (after statements that do not touch
+//	                            the session) and hold it to every exit, and call Responder.SendMsg inside that region,
+//	                            synchronously
 //	unsub_response_after_unsub  HandleEntityComponentUnsubscribe sends the unsubscribe response in a top-level statement
 //	                            that follows the top-level statement calling Unsubscribe
 package main
@@ -600,6 +604,54 @@ func main() {
 	} else {
 		notes = append(notes, "HandleEntityComponentUnsubscribe not found")
 	}
+	// Session.Broadcast / BroadcastTo: recipients looked up and served inside one critical section of the participant lock
+	for _, bn := range []struct{ fn, fact string }{{"Broadcast", "broadcast_serves_under_lock"}, {"BroadcastTo", "broadcast_to_serves_under_lock"}} {
+		fd := method(models, "Session", bn.fn)
+		if fd == nil {
+			notes = append(notes, bn.fn+" not found")
+			continue
+		}
+		// the lock statement may be preceded by statements that touch no shared state of the session (building the message);
+		// from the lock statement on, the region rule applies
+		r := recvName(fd)
+		li := -1
+		for i, st := range fd.Body.List {
+			if es, ok := st.(*ast.ExprStmt); ok {
+				if op, _ := lockCallF(es.X, r, ""); op == "RLock" || op == "Lock" {
+					li = i
+					break
+				}
+			}
+			if syncContains(st, func(x ast.Node) bool {
+				se, ok := x.(*ast.SelectorExpr)
+				if !ok {
+					return false
+				}
+				id, ok := se.X.(*ast.Ident)
+				return ok && id.Name == r
+			}) {
+				break // the receiver is used before any lock is taken
+			}
+		}
+		okR := false
+		if li >= 0 {
+			sub := &ast.FuncDecl{Recv: fd.Recv, Name: fd.Name, Type: fd.Type, Body: &ast.BlockStmt{List: fd.Body.List[li:]}}
+			op, _ := wholeBodyRegionF(sub, "")
+			sends := syncContains(sub.Body, func(x ast.Node) bool {
+				ce, ok := x.(*ast.CallExpr)
+				if !ok {
+					return false
+				}
+				se, ok := ce.Fun.(*ast.SelectorExpr)
+				return ok && (se.Sel.Name == "SendMsg" || se.Sel.Name == "Send")
+			})
+			okR = op != "" && sends && !hasGo(fd.Body)
+		}
+		facts[bn.fact] = okR
+		if !okR {
+			notes = append(notes, fmt.Sprintf("%s: the recipients are not served inside one critical section that starts at statement %d", bn.fn, li))
+		}
+	}
 	// leaveSession: the clean-up of the leaver's entities
 	if fd := method(ws, "RealtimeHandler", "leaveSession"); fd != nil {
 		iloop, irm := -1, -1
@@ -667,7 +719,7 @@ func main() {
 	}
 	var sb strings.Builder
 	sb.WriteString("(* GenStore.v — GENERATED by tools/storefacts from the current Go sources. Do not edit. *)\n")
-	for _, k := range []string{"addtype_atomic", "notify_relays_under_lock", "unsubscribe_exclusive", "subscribe_exclusive", "notify_callers_relay_inside", "unsub_response_after_unsub", "leave_cleanup_unconditional"} {
+	for _, k := range []string{"addtype_atomic", "notify_relays_under_lock", "unsubscribe_exclusive", "subscribe_exclusive", "notify_callers_relay_inside", "unsub_response_after_unsub", "leave_cleanup_unconditional", "broadcast_serves_under_lock", "broadcast_to_serves_under_lock"} {
 		fmt.Fprintf(&sb, "Definition %s : bool := %s.\n", k, b(facts[k]))
 	}
 	for _, n := range notes {
